@@ -83,3 +83,33 @@ func VerifH_CodeChain() {
 		vrt.Cover("codechain-coded")
 	}
 }
+
+type valSelf struct{ n int }
+
+func (e valSelf) Error() string { return "valself" }
+func (e valSelf) Unwrap() error { return e }
+
+// VerifH_CodeCycles: error chains that cycle (two and three pointer errors referring to
+// each other through Unwrap/Cause, a value type returning itself): Code terminates within
+// a bounded number of steps and yields 0.
+func VerifH_CodeCycles() {
+	var err error
+	switch vrt.Choice("shape", 3) {
+	case 0:
+		a := &unwrapErr{}
+		b := &causeErr{inner: a}
+		a.inner = b
+		err = a
+	case 1:
+		err = valSelf{n: 7}
+	case 2:
+		c := &unwrapErr{}
+		c.inner = &unwrapErr{&causeErr{c}}
+		err = c
+	}
+	vrt.Bounded("Code terminates on cyclic error chains", 100000)
+	got := Code(err)
+	vrt.BoundedEnd()
+	vrt.Assert(got == 0, "a cycle without a code yields 0")
+	vrt.Cover("code-cycles-end")
+}
